@@ -43,6 +43,7 @@ ASSUMPTIONS = [
 
 SLOTS = W.TARGET_ORDER + ["pipeline", "pipeline", "pipeline", "qurm", "gcrm"]  # F25/F26 anchors get a double share
 N = {"quick": 1500, "thorough": 48000}
+CASE_TIME_LIMIT = 60  # seconds per generated case (vk.shard watchdog): 2^n ConditionalEffectsRemover variants after a quantifier expansion
 # pipeline requests: ordered pairs and triples over *all* compilation kinds with a registered single-agent compiler
 KINDS = W.ALL_PIPELINE_KINDS
 PAIRS = [(a, b) for a in KINDS for b in KINDS if a != b]
